@@ -11,6 +11,8 @@ EXTENDS MC, IOUtils, TLCExt
 
 Traces == JsonDeserialize(IOEnv.TRACE_FILE)          \* sequence of traces; a trace = sequence of events
 
+CONSTANT Skip       \* clause names left out of the comparison - only used to NAME the failing clause of a rejected trace (normal runs: {})
+
 VARIABLES tid, l
 tvars == <<vars, tid, l>>
 
@@ -20,18 +22,19 @@ TEv == Traces[tid][l]
 SeqToSet(s) == {s[i] : i \in 1..Len(s)}
 
 \* the logged post-state, restricted to what the recorder projects (listed IKE_SAs, kernel SAD, datagrams in flight)
+C(name, holds) == name \in Skip \/ holds
 PostMatches(p) ==
-  /\ table' = [e \in E |-> p.table[e]]
-  /\ \A e \in E : kern'[e] = SeqToSet(p.kern[e])
-  /\ net' = SeqToSet(p.net)
+  /\ C("table", table' = [e \in E |-> p.table[e]])
+  /\ C("kern", \A e \in E : kern'[e] = SeqToSet(p.kern[e]))
+  /\ C("net", net' = SeqToSet(p.net))
   /\ \A i \in 1..Len(p.sas) :
        LET r == p.sas[i] IN
        /\ r.id \in DOMAIN sas'
-       /\ sas'[r.id].st = r.st /\ sas'[r.id].init = r.init /\ sas'[r.id].peer = r.peer
-       /\ sas'[r.id].myMid = r.myMid /\ sas'[r.id].peerMid = r.peerMid
-       /\ {<<k.in, k.out>> : k \in sas'[r.id].kids} = SeqToSet(r.kids)
-       /\ Len(sas'[r.id].pending) = r.npending
-  /\ Len(p.sas) = Cardinality(UNION {Listed(e)' : e \in E})
+       /\ C("st", sas'[r.id].st = r.st) /\ sas'[r.id].init = r.init /\ sas'[r.id].peer = r.peer
+       /\ C("mid", sas'[r.id].myMid = r.myMid /\ sas'[r.id].peerMid = r.peerMid)
+       /\ C("kids", {<<k.in, k.out>> : k \in sas'[r.id].kids} = SeqToSet(r.kids))
+       /\ C("pending", Len(sas'[r.id].pending) = r.npending)
+  /\ C("listed", Len(p.sas) = Cardinality(UNION {Listed(e)' : e \in E}))
 
 Step ==
   /\ l <= Len(Traces[tid])
@@ -46,7 +49,7 @@ Step ==
           [] ev.a = "Deliver"      -> CtlDispatch(ev.m, ev.keep)
           [] ev.a = "NetDrop"      -> NetDrop(ev.m)
           [] OTHER -> FALSE
-     /\ last'.out = ev.out                       \* the datagram the public call returned
+     /\ C("out", last'.out = ev.out)            \* the datagram the public call returned
      /\ PostMatches(ev.post)
   /\ l' = l + 1 /\ UNCHANGED tid
 
